@@ -81,6 +81,8 @@ pub struct Snapshot {
     pub last_wills: Vec<String>,
     pub notifications: usize,
     pub channel_len: usize,
+    /// the stepped loop is where the real one blocks on the event channel
+    pub waiting: bool,
 }
 
 impl Router {
@@ -247,6 +249,7 @@ impl Router {
         s.last_wills.sort();
         s.notifications = self.notifications.len();
         s.channel_len = self.router_rx.len();
+        s.waiting = self.verif_waiting;
         s
     }
 }
